@@ -18,7 +18,7 @@ from ..cfg import cfg_of
 from ..flow import ERROR
 from ..model import UNKNOWN, AnchorError, Func, UnknownIdiom, attr_chain, local_names, short, walk_no_nested
 from .c13_helpers import Defs, resolve_alias
-from .c15_helpers import (ASGI_RESPONSE, RESPONSE, Site, controlling_edges, header_sites, is_lower_call, key_case, raises_only,
+from .c15_helpers import (ASGI_RESPONSE, RESPONSE, Provenance, Site, controlling_edges, header_sites, is_lower_call, key_case, raises_only,
                           reaching, response_receiver, store_exprs)
 from .common import implied, single, strip_await, walk_self, stmts_walk
 
@@ -1403,6 +1403,69 @@ def r14_jar_only_grows(run):
     run.ok('cookie jar: no entry is ever removed (%d methods mention the jar)' % len([1 for _ in seen]), 'falcon/response.py', 'jar removal sweep')
 
 
+# ---------------------------------------------------------------------------
+# R15
+# ---------------------------------------------------------------------------
+
+def r15_disposition_text(run):
+    """The text rendered by _format_content_disposition is its `value`
+    parameter itself.  Between the parameter and the two renderings only the
+    tabled rendering steps may stand (secure_filename for the quoted fallback
+    next to a filename*, the value percent-encoder for filename*, plain
+    %s / f-string embedding for the quoted ASCII form): a narrowing step
+    (basename, split()[-1], strip, slice, case/Unicode normalisation, ...)
+    before them means the header no longer decodes to the assigned name."""
+    p = run.project
+    g = p.func('falcon.response_helpers._format_content_disposition')
+    cfg = cfg_of(g, p)
+    run.use_cfg(cfg)
+    params = g.params()
+    if not params:
+        raise AnchorError('%s has no parameter' % g.qual)
+    vparam = params[0]
+    prov = Provenance(p, g, vparam)
+    n_star = 0
+    rw = "resp.downloadable_as = 'TCP/IP notes.txt' (or ' a.txt ', 'A\u030a.txt'): the header decodes to a different name"
+
+    def judge(o, clause, what, node, ret):
+        bad = [x for x in o.xforms if clause == 'A' or x[0] == 'narrow']
+        if o.xforms and not bad:
+            raise UnknownIdiom('%s: %s is rewritten before the quoted form (%s); cannot tell an escaping from a corruption'
+                               % (g.qual, vparam, '; '.join(o.describe())))
+        if not o.derived:
+            run.fail(what, g, node, where=g.loc(ret), witness=['%s does not derive from the parameter %s' % (short(node), vparam)], runtime_witness=rw)
+            return
+        cons = bad[0][1] if bad else node
+        run.check(not bad, what, g, cons, where=g.loc(cons if hasattr(cons, 'lineno') else ret),
+                  witness=o.describe() + ['reaches %s' % short(ret, 120)] if bad else None, runtime_witness=rw)
+
+    for n in cfg.live_nodes():
+        if n.kind != 'stmt' or not isinstance(n.ast, ast.Return) or n.ast.value is None:
+            continue
+        t = _template(n.ast.value)
+        if t is None:
+            raise UnknownIdiom('%s: cannot read the template of %s' % (g.qual, short(n.ast.value)))
+        for i, x in enumerate(t):
+            if isinstance(x, str):
+                continue
+            lead = t[i - 1].replace(' ', '') if i > 0 and isinstance(t[i - 1], str) else ''
+            if isinstance(x, ast.Call) and len(x.args) == 1 and not x.keywords:
+                q = _callee_qual(p, g, x)
+                if _encoder_kind(p, q) == 'value' and lead.endswith("filename*=UTF-8''"):
+                    n_star += 1
+                    judge(prov.classify(x.args[0], n.id), 'A',
+                          "the filename* form percent-encodes the function's value parameter itself (the whole assigned name)", x.args[0], n.ast)
+                    continue
+                if q == 'falcon.util.misc.secure_filename':
+                    continue     # lossy ASCII fallback next to a filename*: no round trip is claimed for it (ASCII-ness is R10)
+            o = prov.classify(x, n.id)
+            if not o.derived:
+                continue
+            judge(o, 'B', "the quoted filename form embeds the function's value parameter itself (the whole assigned name)", x, n.ast)
+    if not n_star:
+        raise AnchorError("%s: no filename*=UTF-8''<value-encoded> rendering found" % g.qual)
+
+
 def check(run):
     run.assume('receivers: `self` inside Response classes, parameters annotated Response, and the conventional name `resp` denote a response (A.6)')
     run.assume('http.cookies.Morsel semantics are library behaviour: keys are the RFC 6265 attribute names, OutputString() renders one cookie')
@@ -1428,3 +1491,4 @@ def check(run):
     run.rule('R11', _c10._safe(_c10.r1_alphabets), 'allowed alphabets and pass-through guard of the encoders behind the URI-bearing helpers (shared with C10 R1)', floor=14)
     run.rule('R7', _c10._safe(_c10.r5_check_escaped), 'check-escaped encoder behind the URI-bearing helpers (shared with C10 R5)', floor=8)
     run.rule('R8', _c10._safe(_c10.r2_escape_shape), 'escape shape and decoder table behind the URI-bearing helpers (shared with C10 R2)', floor=10)
+    run.rule('R15', r15_disposition_text, 'the download name rendered in Content-Disposition is the assigned value itself, not a narrowed copy', floor=2)
